@@ -133,7 +133,8 @@ class CSSRule(cssutils.util.Base2):
     def _getParentStyleSheet(self):
         # rules contained in other rules (@media) use that rules parent
         if self.parentRule:
-            return self.parentRule._parentStyleSheet
+            # which may be contained in another rule itself
+            return self.parentRule.parentStyleSheet
         else:
             return self._parentStyleSheet
 
